@@ -37,6 +37,14 @@ pub(crate) use self::peers::FetchInfo;
 
 use prelude::*;
 
+// Re-exports for the verification harness (only with `--features verif`).
+#[cfg(feature = "verif")]
+#[allow(unused_imports)]
+pub(crate) mod verif_exports {
+    pub(crate) use super::components::verif_exports::*;
+    pub(crate) use super::sampling::*;
+}
+
 pub(crate) use self::peers::{LastState, Peer, PeerState, Peers, ProveRequest, ProveState};
 use super::{
     status::{Status, StatusCode},
